@@ -6,6 +6,7 @@
   the presence of every `recover` the statements rely on is a regenerated fact, checked here.
 -/
 import Emitter.Lemmas.Hostile
+import Emitter.Lemmas.Channel
 namespace Emitter.C09
 open Emitter Emitter.Hostile
 
@@ -128,7 +129,27 @@ theorem query_reply (limit : Int) (sizes : List Nat) :
   have := lookupLoop_bounds limit sizes 0 0 (by decide)
   simpa [lookup] using this
 
+/-! ## channel strings — parsed for every SUBSCRIBE / UNSUBSCRIBE / PUBLISH / last will / request before any key is looked at -/
+
+/-- `ParseChannel` terminates on every topic: the option loop consumes at least one byte per round, so with
+fuel above the length of the option text the model's answer never is "out of fuel" (it does not depend on
+the fuel at all). A change to the Go loop that stops consuming (e.g. a stale key/value surviving a round)
+makes the real parser spin while the model still answers: the correspondence run's watchdog reports it. -/
+theorem channel_options_terminate (fuel : Nat) (text : Bytes) (h : text.length < fuel) :
+    Security.parseOptions fuel text = Security.parseOptions (text.length + 1) text :=
+  Security.parseOptions_fuel fuel text h
+
+/-- … and what it builds is bounded by the topic: at most one option and one level per input byte -/
+theorem channel_alloc (text : Bytes) :
+    (Security.parseChannel text).options.length ≤ text.length ∧ (Security.parseChannel text).query.length ≤ text.length :=
+  Security.parseChannel_bounded text
+
 /-! ## non-vacuity -/
+
+-- "k/a/?ttl=1&x": a well-formed option followed by a dangling key is refused (not looped on)
+example : (Security.parseChannel [107, 47, 97, 47, 63, 116, 116, 108, 61, 49, 38, 120]).ctype = Security.chInvalid := by decide
+-- "k/a/?ttl=1&x=2" is accepted with two options
+example : (Security.parseChannel [107, 47, 97, 47, 63, 116, 116, 108, 61, 49, 38, 120, 61, 50]).options.length = 2 := by decide
 
 -- a valid PUBLISH is decoded, its 7-byte body is what was allocated
 example : mqttAlloc [0x30, 7, 0, 2, 97, 47, 1, 2, 3, 0xc0, 0] 65536 = 7 := by decide
